@@ -206,11 +206,12 @@ pub struct C15Obs<'a> {
     pub max_resident: u64,
     pub prev_recs: usize,
     pub drains: u64,
+    pub drains_with_readers: u64,
 }
 
 impl<'a> C15Obs<'a> {
     pub fn new(case: &'a SchedCase) -> Self {
-        C15Obs { case, observations: 0, over_limit_observations: 0, over_limit_pinned_entries: 0, max_resident: 0, prev_recs: 0, drains: 0 }
+        C15Obs { case, observations: 0, over_limit_observations: 0, over_limit_pinned_entries: 0, max_resident: 0, prev_recs: 0, drains: 0, drains_with_readers: 0 }
     }
     fn viol(&self, sig: &str, text: String, step: usize) -> Viol {
         Viol { prop: "C15".into(), sig: format!("C15:{}", sig), text: format!("step {}: {}", step, text), replay: json!({"kind": "c15", "case": self.case.to_json(), "step": step}) }
@@ -234,12 +235,18 @@ impl Observer for C15Obs<'_> {
         if s.payload_cache_size != bytes {
             return Err(self.viol("size", format!("stat reports cache size {} bytes, resident payloads total {} bytes ({} items)", s.payload_cache_size, bytes, n), info.step));
         }
+        // the limits in force are the configured ones
+        let want_items = st.cfg.max_items.unwrap_or(100_000) as u64;
+        let want_cap = st.cfg.capacity.unwrap_or(1024 * 1024 * 1024) as u64;
+        if s.payload_cache_max_item != want_items || s.payload_cache_capacity != want_cap {
+            return Err(self.viol("limits_not_the_configured_ones", format!("configured max_items/capacity {}/{} but the cache works with {}/{}", want_items, want_cap, s.payload_cache_max_item, s.payload_cache_capacity), info.step));
+        }
         if s.payload_cache_last_evictable != boundary {
             return Err(self.viol("boundary_mismatch", format!("stat boundary {:?} != cache boundary {:?}", s.payload_cache_last_evictable, boundary), info.step));
         }
         // limit clause: right after an append, with the worker parked/idle since before the call
         let step_op = self.case.hist.steps.get(info.step).map(|s| &s.op);
-        if info.after_op && matches!(step_op, Some(Op::Append(es)) if !es.is_empty()) {
+        if info.after_op && info.op_ok && matches!(step_op, Some(Op::Append(es)) if !es.is_empty()) {
             let over = n > s.payload_cache_max_item || bytes > s.payload_cache_capacity;
             if over {
                 self.over_limit_observations += 1;
@@ -257,9 +264,31 @@ impl Observer for C15Obs<'_> {
     }
 
     fn at_end(&mut self, st: &Store, _m: &Model) -> Result<(), Viol> {
-        // worker idle: drain what is evictable, nothing at or below the boundary may stay resident
+        // worker idle: drain what is evictable, nothing at or below the boundary may stay resident.
+        // In half of the runs reader threads hammer the cache while the single drain call is made.
         let rl = st.rl();
-        rl.drain_cache_evictable();
+        if self.observations % 2 == 0 {
+            let stop = std::sync::atomic::AtomicBool::new(false);
+            std::thread::scope(|sc| {
+                for _ in 0..3 {
+                    sc.spawn(|| {
+                        let mut n = 0u32;
+                        while !stop.load(std::sync::atomic::Ordering::Relaxed) && n < 20_000 {
+                            let _ = rl.read(0, u64::MAX).count();
+                            n += 1;
+                        }
+                    });
+                }
+                for _ in 0..200 {
+                    std::thread::yield_now();
+                }
+                rl.drain_cache_evictable();
+                stop.store(true, std::sync::atomic::Ordering::Relaxed);
+            });
+            self.drains_with_readers += 1;
+        } else {
+            rl.drain_cache_evictable();
+        }
         let (boundary, resident) = rl.verif_cache_resident();
         let s = rl.stat();
         self.drains += 1;
@@ -502,6 +531,7 @@ pub fn run_shard(ctx: &mut Ctx) {
             ctx.out.count("observations_over_limit_after_append", obs.over_limit_observations);
             ctx.out.count("pinned_entries_seen_over_limit", obs.over_limit_pinned_entries);
             ctx.out.count("live_drain_checks", obs.drains);
+            ctx.out.count("drain_calls_made_while_3_reader_threads_were_reading", obs.drains_with_readers);
             match res {
                 Ok(rr) => {
                     ctx.out.count("worker_stall_points", rr.stall_points);
